@@ -447,6 +447,14 @@ def allocators(chk, repo):
             i = blk.index(s)
             nxt = blk[i + 1] if i + 1 < len(blk) else None
             inst = f"{d} region ({kind})"
+            if kind in ("FMMU_IN", "FMMU_OUT", "NO_FMMU") and isinstance(
+                    v.elts[1], ast.Call):
+                # the base comes out of a helper of the packet: not the
+                # statements this rule knows; the allocation is decided on
+                # its result (R18.6 above)
+                chk.notes.append(f"R18.1: {sym}: {inst} takes its base from "
+                                 f"`{acc[:40]}`; decided by R18.6")
+                continue
             if kind in ("FMMU_IN", "FMMU_OUT"):
                 want_acc = "packet.fmmu_in_size" if kind == "FMMU_IN" \
                     else "packet.fmmu_out_size"
